@@ -9,7 +9,7 @@
 From Coq Require Import List NArith ZArith Bool.
 From Coq.Strings Require Import Byte.
 From EV Require Import Base.Bytes Gen.Tables Model.Script Proofs.Script Proofs.ScriptTemplates.
-From EV Require Gen.SrcScript Proofs.SrcScript.
+From EV Require Gen.SrcScript Proofs.SrcScript Gen.SrcAddr Proofs.SrcAddr.
 Import ListNotations.
 Open Scope N_scope.
 
@@ -85,6 +85,11 @@ Theorem C16_templates_from_source : forall s : bytes,
 Proof. intros s. repeat split; auto using SrcScript.src_is_p2sh, SrcScript.src_is_p2pkh, SrcScript.src_is_p2pk, SrcScript.src_is_witness_program,
   SrcScript.src_is_v0_p2wsh, SrcScript.src_is_v1_p2tr, SrcScript.src_is_v1plus_p2witprog, SrcScript.src_is_v0_p2wpkh, SrcScript.src_is_op_return,
   SrcScript.src_is_provably_unspendable. Qed.
+(* Address::from_script itself, from the source text: the chain of template tests, the payload constructor, the byte range and the witness-version
+   expression of every arm are read from src/address.rs on every run (Gen/SrcAddr.v); the result is the model's from_script on EVERY script *)
+Theorem C16_from_script_from_source : forall s : bytes,
+  from_script s = Val (SrcAddr.payload_of (SrcAddr.src_from_script s)).
+Proof. exact SrcAddr.src_from_script_is_model. Qed.
 Theorem C16_templates : forall s : bytes,
   (is_p2pkh s = true <-> exists h, length h = 20%nat /\ s = x76 :: xa9 :: x14 :: h ++ [x88; xac]) /\
   (is_p2sh s = true <-> exists h, length h = 20%nat /\ s = xa9 :: x14 :: h ++ [x87]) /\
@@ -191,3 +196,5 @@ Print Assumptions C16_from_script_total.
 Print Assumptions C16_from_script.
 Print Assumptions C16_from_script_roundtrip.
 Print Assumptions C16_from_script_text.
+Check (C16_from_script_from_source : forall s : bytes, from_script s = Val (SrcAddr.payload_of (SrcAddr.src_from_script s))).
+Print Assumptions C16_from_script_from_source.
